@@ -33,14 +33,15 @@ type c18Config struct {
 	Orders   [][]int      `json:"orders"`
 	HTTP     bool         `json:"http,omitempty"`
 	Hist     []c18Hist    `json:"hist,omitempty"`
+	ViaAPI   bool         `json:"via_api,omitempty"`
 }
 
 var (
 	c18Prefixes = []string{"/", "/a", "/a/", "/a/b", "/ab", "/b", ""}
-	c18EndUsers = []string{"u1@example.com", "u2@example.com", "allUsers"}
+	c18EndUsers = []string{"Alice.Smith@Example.COM", "u2@example.com", "allUsers"}
 	c18Seen     = []string{"fresh", "4m", "6m", "1h", "never"}
 	c18Active   = []string{"", "fresh", "4m", "6m"}
-	c18Users    = []string{"u1@example.com", "u2@example.com", "u3@example.com"}
+	c18Users    = []string{"Alice.Smith@Example.COM", "u2@example.com", "u3@example.com"}
 	c18Paths    = []string{"/", "/a", "/a/", "/a/b/c", "/ab", "/b", "/c", "", "/données/x", "/a b/c", "/50%/x", "/a/b"}
 	// how the paths are spelled on the request line where that is not simply the escaped form: "/a/b" arrives as "/a%2Fb"
 	c18WirePaths = []string{"", "", "", "", "", "", "", "", "", "", "", "/a%2Fb"}
@@ -338,6 +339,18 @@ func c18Generate(r *core.Run) []c18Config {
 	for _, i := range rng.Perm(len(cfgs))[:nHTTP] {
 		cfgs[i].HTTP = true
 	}
+	// a third of the configurations, and all that go through the client handler, are registered the way an
+	// administrator does it: POST /api/backends (the rest through the store interface)
+	for i := range cfgs {
+		cfgs[i].ViaAPI = rng.Intn(3) == 0
+	}
+	defer func() {
+		for i := range cfgs {
+			if cfgs[i].HTTP || len(cfgs[i].Hist) > 0 {
+				cfgs[i].ViaAPI = true
+			}
+		}
+	}()
 	// always through the client handler: one live shared backend whose prefix is spelled differently on the wire
 	for i := range cfgs {
 		if bs := cfgs[i].Backends; len(bs) == 1 && bs[0].EndUser == "allUsers" && bs[0].Seen == "fresh" && bs[0].Active == "" && bs[0].Repolled == "" && !bs[0].Rereg {
@@ -381,7 +394,7 @@ func c18Generate(r *core.Run) []c18Config {
 
 // C18 — routing to the most specific live backend.
 func C18(r *core.Run) {
-	r.SetRule("bounded-exhaustive comparison of LookupBackend (real caching+persistent store over a fake datastore/memcache) with an independent longest-prefix specification: 1-4 backends, prefix lists (1-3, duplicates) over {/, /a, /a/, /a/b, /ab, /b, \"\", /données/, \"/a b/\", /50%/}, endUser in {u1,u2,allUsers}, last poll in {fresh,4m,6m,1h,never} x last posted response in {none,fresh,4m,6m} (dated independently; posted through the real store), backends with an earlier life under the same ID (registered, polled, answered, deleted, registered again = never polled), backends registered, polled and registered again within seconds (directly or after a delete) before their present poll, users {u1,u2,u3} x 12 paths (including non-ASCII, space, percent and one that arrives with an encoded slash, %2F; the request path is the decoded one), every/many insertion orders, each lookup repeated; sample through the client HTTP handler, including three-step histories (a cacheable GET answered by the one admissible backend; that backend deleted / its last poll aged past the window / registered for another end user; the same GET again); class = (#backends, candidate source user/shared/none, #candidates, longest match length, tie size, liveness of the longest class, more specific shared backend present)")
+	r.SetRule("bounded-exhaustive comparison of LookupBackend (real caching+persistent store over a fake datastore/memcache) with an independent longest-prefix specification: 1-4 backends, prefix lists (1-3, duplicates) over {/, /a, /a/, /a/b, /ab, /b, \"\", /données/, \"/a b/\", /50%/}, endUser in {u1 (a mixed-case address, upper-case domain), u2, allUsers}, a third of the configurations (and every one sent through the client handler) registered through POST /api/backends instead of the store interface, last poll in {fresh,4m,6m,1h,never} x last posted response in {none,fresh,4m,6m} (dated independently; posted through the real store), backends with an earlier life under the same ID (registered, polled, answered, deleted, registered again = never polled), backends registered, polled and registered again within seconds (directly or after a delete) before their present poll, users {u1,u2,u3} x 12 paths (including non-ASCII, space, percent and one that arrives with an encoded slash, %2F; the request path is the decoded one), every/many insertion orders, each lookup repeated; sample through the client HTTP handler, including three-step histories (a cacheable GET answered by the one admissible backend; that backend deleted / its last poll aged past the window / registered for another end user; the same GET again); class = (#backends, candidate source user/shared/none, #candidates, longest match length, tie size, liveness of the longest class, more specific shared backend present)")
 	r.Assume("ties and a non-live member of the longest-prefix class admit 404 or any live member; liveness margins are >= 60 s from the 5-minute boundary; 'never seen' is the state right after registration; a backend is live iff its agent listed pending requests within the window - a posted response never counts; a request answered without being queued for any backend (GET cache replay) is admissible only where some backend is admissible for that user and path; last-seen ages are produced by ageing the time-valued properties written when the backend's pending list is read")
 	bin := r.MustBuild(e3Build(r))
 	cfgs := c18Generate(r)
